@@ -395,6 +395,9 @@ Record srv_obs := mkSObs
     so_respraw : list Z; so_respdec : option (list Z);
     so_uerr : Z;                                   (* -9: no unauthorized callback installed *)
     so_mwran : bool;                               (* the server.Use middleware ran *)
+    so_ctxok : bool;                               (* the handler's context held exactly the token's non-registered claims,
+                                                      before and after other requests were served (harness comparison) *)
+    so_outer : Z;                                  (* status seen by a middleware OUTSIDE the gates (-1: none installed) *)
     so_panic : bool }.
 
 Record srv_case := mkSrv
@@ -427,6 +430,7 @@ Definition sout_eqb (m : sout) (o : srv_obs) : bool :=
   ((o_status h =? 404) || (o_status h =? 405) || resp_match2 (o_resp h) (so_respraw o) (so_respdec o)) &&
   route_opt_eqb (s_route m) (so_route o) &&
   Bool.eqb (o_ran h) (so_mwran o) &&
+  ((so_outer o =? -1) || (so_outer o =? o_status h)) &&
   ((so_uerr o =? -9) || (so_uerr o =? s_uerr m)).
 
 Definition agrees_srv (c : srv_case) : bool :=
@@ -462,6 +466,9 @@ Definition prop_srv1 (c : srv_case) (x : sreq * nat * srv_obs) : bool :=
   let '(q, gi, o) := x in
   let t := v_tabs c in
   negb (so_panic o) &&
+  (* what a middleware in front of the gates records is what the client gets; the claims in the handler's
+     context are its own token's, also after other requests went through the same gate *)
+  ((so_outer o =? -1) || (so_outer o =? so_status o)) && (if so_ran o then so_ctxok o else true) &&
   match nth_error (v_groups c) gi with
   | None => false
   | Some g =>
